@@ -56,7 +56,9 @@ fn main() {
 		sel       func(b *meta.Breaking) bool
 		what      string
 	}{
-		{1, "delimiter", "drop-paren", func(b *meta.Breaking) bool { return strings.HasPrefix(base[b.Off:], ");\n}\n\nconst_assert") || strings.Contains(base[b.Off-8:b.Off+1], "i, half)") },
+		{1, "delimiter", "drop-paren", func(b *meta.Breaking) bool {
+			return strings.HasPrefix(base[b.Off:], ");\n}\n\nconst_assert") || strings.Contains(base[b.Off-8:b.Off+1], "i, half)")
+		},
 			"a deleted ')' of a call (likewise ']' of an index, ')' of an attribute, '>' of a template list) is accepted: Parser.expect ignores the missing closer"},
 		{2, "undeclared", "var", func(b *meta.Breaking) bool { return has(b, "const_assert") },
 			"const_assert with an undeclared identifier is accepted (a const_assert naga cannot evaluate is dropped silently)"},
